@@ -5173,3 +5173,148 @@ func ruleClearAck(prop string) ruleFn {
 		}
 	}
 }
+
+// QUERY-PURE (C03, C04): a query term does not write through what it was handed.
+func ruleQueryPure(prop string) ruleFn {
+	return func(w *World, r *Report) {
+		r.Rule("QUERY-PURE", "no Exec of a core.Query implementation writes through the QueryResult it receives (MOD summaries as for MOD-PURE: the slice of binding sets, and each binding map in it): `or` hands the same incoming binding set to every disjunct, EvalRuleCondition hands the `when` match's own maps to the condition, and a cached rule's parsed condition is evaluated for event after event.  A term that adds its results to the incoming map (a `code` term that returns additional bindings) or filters the incoming slice in place (`not`) changes what its siblings, the work tree and the next evaluation see: actions run with the union of bindings that belong to different alternatives", 5)
+		q := w.Iface("core", "Query")
+		m := newModEngine(w, nil)
+		n := 0
+		for _, nt := range w.Implementers(q) {
+			fn := w.TryMethod(typeRel(nt), nt.Obj().Name(), "Exec")
+			if fn == nil || isTestFile(w, fn) {
+				continue
+			}
+			for pi, p := range fn.Params {
+				if nn := namedOf(p.Type()); nn == nil || typeKey(nn) != "core.QueryResult" {
+					continue
+				}
+				n++
+				key := "fn=" + fname(fn) + " param=" + p.Name()
+				if ok, why := m.mutatesParam(fn, pi); ok {
+					r.violation("QUERY-PURE", key, w.Pos(fn.Pos()), "the incoming result can be written through: "+why)
+				} else {
+					r.ok("QUERY-PURE", key, w.Pos(fn.Pos()), "never written through")
+				}
+			}
+		}
+		if n == 0 {
+			r.exempt("QUERY-PURE", "impl=none", "", "no Query implementation with a QueryResult parameter found: not decided")
+		}
+	}
+}
+
+// EXP-PARSE-EXACT (C07): a given instant is not moved when it is turned into seconds.
+func ruleExpParseExact(w *World, r *Report) {
+	r.Rule("EXP-PARSE-EXACT", "in setExpires the seconds kept for an `expires` given as a string derive from the parsed time only through methods that cannot move the instant later (UTC, In, Unix, Truncate): `Round` (or adding something) stores an instant up to half a second after the one that was given, the item is returned and dispatched during that time, and the moved instant is what is persisted", 1)
+	fn := w.Func("core", "setExpires")
+	key := "fn=" + fname(fn)
+	allowed := map[string]bool{"UTC": true, "In": true, "Unix": true, "Truncate": true, "Local": true}
+	n := 0
+	bad := ""
+	allInstrs(fn, func(in ssa.Instruction) {
+		c, ok := in.(*ssa.Call)
+		if !ok {
+			return
+		}
+		f := c.Common().StaticCallee()
+		if f == nil || f.Pkg == nil || f.Pkg.Pkg.Path() != "time" || f.Signature.Recv() == nil {
+			return
+		}
+		rn := namedOf(f.Signature.Recv().Type())
+		if rn == nil || rn.Obj().Name() != "Time" || len(c.Common().Args) == 0 {
+			return
+		}
+		// only the chain that starts at time.Parse
+		if !dependsOn(c.Common().Args[0], func(v ssa.Value) bool {
+			pc, ok := v.(*ssa.Call)
+			return ok && isPkgFunc(calleeObj(pc.Common()), "time", "Parse")
+		}) {
+			return
+		}
+		n++
+		if !allowed[f.Name()] {
+			bad = "time.Time." + f.Name() + " at " + w.PosOf(in)
+		}
+	})
+	switch {
+	case n == 0:
+		r.exempt("EXP-PARSE-EXACT", key, w.Pos(fn.Pos()), "no method is applied to a parsed time here: shape not recognised, not decided")
+	case bad != "":
+		r.violation("EXP-PARSE-EXACT", key, w.Pos(fn.Pos()), "the parsed expiry goes through "+bad+", which can move the instant later")
+	default:
+		r.ok("EXP-PARSE-EXACT", key, w.Pos(fn.Pos()), itoa(n)+" method call(s) on the parsed time, none of which can move the instant later")
+	}
+}
+
+// FAN-MODE-LOCAL (C04): serial or concurrent is decided per rule, by that rule.
+func ruleFanModeLocal(w *World, r *Report) {
+	r.Rule("FAN-MODE-LOCAL", "in Location.WorkWalk the branch that chooses between running a rule's actions one after the other (and stopping at the first failure) and running them concurrently is decided by the rule at hand only: its condition does not depend on a value carried from one iteration of the loop over the dispatched rules to the next (a non-integer phi at the head of an enclosing loop; the integer induction variable of the range is the loop's own business).  A flag that is set for a rule with `serialActions` and merely left alone for a rule without `policies` makes the second rule serial when it happens to be walked after the first: a failing action then prevents the rule's other actions although the rule did not ask for that", 1)
+	fn := w.Method("core", "Location", "WorkWalk")
+	key := "fn=" + fname(fn)
+	var gos []ssa.Instruction
+	allInstrs(fn, func(in ssa.Instruction) {
+		if _, ok := in.(*ssa.Go); ok {
+			gos = append(gos, in)
+		}
+	})
+	if len(gos) == 0 {
+		r.exempt("FAN-MODE-LOCAL", key, w.Pos(fn.Pos()), "WorkWalk starts no goroutine: shape not recognised, not decided")
+		return
+	}
+	loops := naturalLoops(fn)
+	carried := func(v ssa.Value) bool {
+		p, ok := v.(*ssa.Phi)
+		if !ok {
+			return false
+		}
+		if b, isB := p.Type().Underlying().(*types.Basic); isB && b.Info()&types.IsInteger != 0 {
+			return false
+		}
+		for _, l := range loops {
+			if l.Header != p.Block() {
+				continue
+			}
+			// an edge that comes from inside the loop
+			for i, pred := range p.Block().Preds {
+				if l.Body[pred] && i < len(p.Edges) {
+					if _, isConst := p.Edges[i].(*ssa.Const); !isConst {
+						return true
+					}
+				}
+			}
+		}
+		return false
+	}
+	n := 0
+	bad := ""
+	goBlock := gos[0].Block()
+	for _, b := range fn.Blocks {
+		if len(b.Instrs) == 0 || !b.Dominates(goBlock) {
+			continue
+		}
+		ifi, ok := b.Instrs[len(b.Instrs)-1].(*ssa.If)
+		if !ok {
+			continue
+		}
+		r0 := b.Succs[0] == goBlock || blockReaches(b.Succs[0], goBlock, b)
+		r1 := b.Succs[1] == goBlock || blockReaches(b.Succs[1], goBlock, b)
+		if r0 == r1 {
+			continue
+		}
+		// the other branch must contain calls of an action's Do (the serial alternative), not an exit
+		n++
+		if dependsOn(ifi.Cond, carried) {
+			bad = w.PosOf(ifi)
+		}
+	}
+	switch {
+	case n == 0:
+		r.exempt("FAN-MODE-LOCAL", key, w.Pos(fn.Pos()), "no branch selects the concurrent execution: shape not recognised, not decided")
+	case bad != "":
+		r.violation("FAN-MODE-LOCAL", key, bad, "whether a rule's actions run serially depends on a value carried over from the rules walked before it")
+	default:
+		r.ok("FAN-MODE-LOCAL", key, w.PosOf(gos[0]), itoa(n)+" branch(es) lead to the concurrent execution, none depends on a loop-carried value")
+	}
+}
